@@ -421,6 +421,15 @@ def check_equiv(rep, rule, construct, what, code, spec, where="", eq=None, assum
         cs = run.A.summary(construct)
         canonical = any(x[0] == "param" and x[1].startswith("#") for t_ in (code, spec) for x in walk(t_))
         code = subst(close_loops(cs, code), canon_params(cs)) if canonical else close_loops(cs, code)
+    if run is not None and construct in run.P.functions and not os.environ.get("PRSA_NO_STORE_GUARD"):
+        # soundness guard: value terms do not carry item assignments (d[k] = v) into containers created in the function; a compared value
+        # that contains such a container would be read as if it had never been written to
+        cs_ = run.A.summary(construct)
+        local_ = lambda o: head(o) in ("dict", "list", "set", "alloc") or (head(o) == "call" and strip(o[1]) in (("glob", "builtins.dict"), ("glob", "builtins.list"), ("glob", "builtins.set"), ("glob", "collections.defaultdict")))
+        stored = {strip_all(e_["obj"]) for e_ in cs_.events_of("setitem") if local_(strip_all(e_["obj"]))}
+        if stored and any(x in stored for x in walk(strip_all(code))):
+            rep.require(False, f"{construct}: the compared value contains a local container that is filled by item assignments ({show(next(iter(stored)), 30)}[...] = ...), which value terms do not carry; cannot decide [{rule}]")
+            return None
     # (a rule run on behalf of another property, '<prop>-DEP/<rule>', shares the recorded vocabulary of the rule itself)
     eq.vocab_key = f"{rule.split('-DEP/', 1)[-1]}|{construct}|{key or what}"
     mism, rows = eq.compare(code, spec, assume=assume, alias=cond_alias, int_subjects=int_subjects)
